@@ -363,6 +363,37 @@ def h6(ctx, rid):
                 ctx.ok(rid, key + '|quarantine-ids', c.where(), 'origins include ids of files already in the quarantine directory')
             else:
                 ctx.bad(rid, key + '|quarantine-ids', c.where(), 'ids of blobs sitting in the quarantine directory are not among the origins of the id counter: after a restart such an id is handed out again and a later quarantine renames over the preserved file')
+    # H6f: in exclusive initialisation the counter is seeded before it is consumed: every call that can reach the fetch_add on
+    # next_blob_id (next_blob_name, a fresh-blob helper) is dominated by every store / fetch_max of the same body
+    L, E = prog.may_reach()
+    consumers_fn = set()
+    for g in prog.fns.values():
+        for c in g.calls:
+            if c.name == 'fetch_add' and c.path.startswith('std::sync::atomic::Atomic') and prims.receiver_field(g, c) == 'next_blob_id':
+                consumers_fn.add(g.id)
+                consumers_fn.add(prog.fns[g.id].root)
+    for f in prog.fns.values():
+        seeds = [c for c in f.calls if c.path.startswith('std::sync::atomic::Atomic') and prims.receiver_field(f, c) == 'next_blob_id' and c.name in ('store', 'fetch_max') and c.bb in f.reachable()]
+        if not seeds:
+            continue
+        cons = []
+        for c in f.calls:
+            if c.bb not in f.reachable() or c.name == 'poll' or c in seeds:
+                continue
+            tg = [t for t in prog.resolve(c) if t in prog.fns]
+            if any(t in consumers_fn or (L.get(t, set()) & consumers_fn) for t in tg):
+                cons.append(c)
+        def covers_quarantine(sd):
+            ogs = core.origins_deep(prog, f, sd.args[1], depth=3) if len(sd.args) > 1 else []
+            return any(o.kind == 'call' and o.data.target == 'blob::file_name::FileName::id' and 'corrupted' in o.data.fn.id for o in ogs)
+        full = [sd for sd in seeds if covers_quarantine(sd)]
+        for c in cons:
+            key = 'seeded-before-consumed|%s|%s' % (prog.fns[f.id].root, c.name)
+            dom = [sd for sd in full if c.bb not in f.reach_from([0], avoid_exit=[sd.bb])]
+            if not dom:
+                ctx.bad(rid, key, c.where(), '`%s` takes a blob id from the counter on a path on which the counter has not yet been raised above the ids found in the quarantine directory (%s): an id that is in use there is handed out, and a later quarantine of that blob renames over the preserved file' % (c.name, ', '.join('%s at %s' % (sd.name, sd.where()) for sd in full) or 'no such seeding in this body'))
+            else:
+                ctx.ok(rid, key, c.where(), 'dominated by the seeding `%s` that includes the quarantined ids' % dom[0].name)
     # H6e: the sources are joined by a maximum - a selector that prefers one source (`or`, `unwrap_or`, `min`, ..) stores an id
     # below one that is in use as soon as the preferred source is the smaller one
     SELECTORS = ('or', 'or_else', 'xor', 'and', 'min', 'unwrap_or', 'unwrap_or_else', 'unwrap_or_default', 'min_by', 'min_by_key', 'zip')
